@@ -789,7 +789,8 @@ pub fn run(run: &mut Run) {
             trace_case::<IntMinSum>(l, "IntMinSum", &|| IntMinSum, &m, rng);
         } else {
             let name = ARITH_NAMES[k];
-            with_arith!(name, A, { trace_case::<A>(l, name, &|| <A>::new(), &m, rng) }, { panic!() });
+            let dflt = (idx / 25) % 3 == 2;
+            with_arith!(name, A, { trace_case::<A>(l, name, &|| if dflt { <A as Default>::default() } else { <A>::new() }, &m, rng) }, { panic!() });
         }
     });
     let n3 = if cfg!(miri) { 2 } else { run.tier.n(30_000, 1_000_000) };
